@@ -119,8 +119,8 @@ PROPS = {
         domains=[("conn", "closenotify", 600, 8000), ("conn", "cnall4", 1, 1), ("conn", "serve", 200, 2000), ("sctp", "serve", 300, 4000)],
         thorough_extra=[("conn", "cnall6", 1, 1)],
         relevant=["C14:"],
-        theorems=["DV.Props.C14."+t for t in ["C14_once","C14_only_when_gone","C14_quiet","C14_late_request","C14_transparent","C14_nothing_stuck","C14_gen"]],
-        gen_obligations=["Gen.serveDeferClose","Gen.serveDeferNotify","Gen.serveDispatchSync"],
+        theorems=["DV.Props.C14."+t for t in ["C14_once","C14_only_when_gone","C14_quiet","C14_late_request","C14_transparent","C14_nothing_stuck","C14_multistream","C14_gen"]],
+        gen_obligations=["Gen.serveDeferClose","Gen.serveDeferNotify","Gen.serveDispatchSync","Gen.closeNotifyMultiCalls"],
         trusted=CONN_TRUST,
     ),
     "C15": dict(
